@@ -438,6 +438,11 @@ func (x *exec) evBin(n *EBin, env *Env, hint types.Type) *Val {
 		}
 		return x.mkVal(App(f, x.term(a), x.term(b)), t)
 	}
+	if isStringType(t) && n.Op == "+" {
+		// string concatenation: the same uninterpreted function the executor uses
+		x.c.Fun("str-cat", []string{"Str", "Str"}, "Str")
+		return x.mkVal(App("str-cat", x.term(a), x.term(b)), t)
+	}
 	if !isInt(t) {
 		fail("spec: operator %s on %s in %s", n.Op, t, ExprString(n))
 	}
@@ -564,6 +569,14 @@ func (x *exec) evCall(n *ECall, env *Env, hint types.Type) *Val {
 			ne := *env
 			ne.st = env.old
 			return x.ev(n.Args[0], &ne, hint)
+		case "ret0", "ret1", "ret2", "ret3":
+			// component of a multi-result pure call
+			v := x.ev(n.Args[0], env, nil)
+			k := int(id.Name[3] - '0')
+			if k >= len(v.Tup) {
+				fail("spec: %s of a %d-tuple", id.Name, len(v.Tup))
+			}
+			return v.Tup[k]
 		case "csprng":
 			// csprng(b): the buffer / key object b was filled by the operating system's secure random source
 			v := x.ev(n.Args[0], env, nil)
@@ -673,6 +686,11 @@ func (x *exec) specConvert(v *Val, to types.Type) *Val {
 			return x.mkVal(fmt.Sprintf("((_ to_fp 11 53) RNE %s)", x.term(v)), to)
 		}
 		return x.mkVal(fmt.Sprintf("((_ to_fp_unsigned 11 53) RNE %s)", x.term(v)), to)
+	case isStringType(from) && isSliceType(to):
+		// []byte(s) in a specification: the byte sequence of the string
+		sl := to.Underlying().(*types.Slice)
+		x.c.Fun("str-bytes", []string{"Str"}, fmt.Sprintf("(Array %s %s)", x.c.I(), x.c.SortOf(sl.Elem())))
+		return &Val{Typ: to, Seq: &seqView{arr: App("str-bytes", x.term(v)), off: x.c.ILit(0), ln: App("str-len", x.term(v))}}
 	case isFloat(from) && isInt(to) && x.c.Mode == ModeInt:
 		// same uninterpreted conversion the executor uses in arith int
 		x.c.Fun("f2i", []string{"(_ FloatingPoint 11 53)"}, "Int")
